@@ -2488,13 +2488,17 @@ def convert_ops_to_lut(op: Operation, arch, nng) -> Operation:
         name = "exp"
     elif op.type == Op.Log:
         def log(value):
-            if (value == 0):
+            # the quantised input range may include values for which the function is not defined
+            if (value <= 0):
                 value = sys.float_info.min
             return math.log(value)
         func = log
         name = "log"
     elif op.type == Op.Sqrt:
-        func = math.sqrt
+        def sqrt(value):
+            # the quantised input range may include values for which the function is not defined
+            return math.sqrt(max(value, 0.0))
+        func = sqrt
         name = "sqrt"
     elif op.type == Op.Gelu:
         def gelu(x):
